@@ -7,6 +7,9 @@ Writes seeded/matrix.json and updates each meta.json's "checks_run".   Usage: to
 import json, os, subprocess, sys, glob, shutil, re
 
 WT, EV = os.environ.get("MATRIX_WT", "/tmp/lsf-matrix-wt"), os.environ.get("MATRIX_EV", "/tmp/lsf-matrix-evidence")
+# the checks are run from the tree this script lives in (under `vp run` that is the snapshot of the commit, so that /verif may be edited
+# meanwhile); the results are written to /verif/seeded
+ROOT = os.path.dirname(os.path.abspath(__file__))
 
 
 def sh(cmd, cwd=None, env=None, timeout=3600):
@@ -20,7 +23,7 @@ def main():
     for a in sys.argv[1:]:
         if a.startswith("--checks"):
             checks = a.split("=", 1)[1].split(",")
-    manifest = json.load(open("/verif/MANIFEST.json"))
+    manifest = json.load(open(os.path.join(ROOT, "MANIFEST.json")))
     all_checks = [c["property_id"] for c in manifest["checks"]]
     own = "--own" in sys.argv
     only_changes = [a.split("=", 1)[1].split(",") for a in sys.argv[1:] if a.startswith("--changes=")]
@@ -36,6 +39,7 @@ def main():
     matrix_path = "/verif/seeded/matrix.json"
     matrix = json.load(open(matrix_path)) if os.path.exists(matrix_path) else {}
     head = sh("git -C /repo rev-parse --short HEAD")[1].strip()
+    verif_commit = sh("git -C %s rev-parse --short HEAD" % ROOT)[1].strip().splitlines()[-1]
     try:
         for d in seeds:
             name = "/".join(d.split("/")[-2:])
@@ -47,9 +51,9 @@ def main():
             for c in ([d.split("/")[-2]] if own else checks):
                 shutil.rmtree(EV, ignore_errors=True); os.makedirs(EV)
                 env = dict(os.environ, LSF_REPO=WT, LSF_EVIDENCE_DIR=EV)
-                rc, out = sh("./check %s --tier quick" % c, cwd="/verif", env=env)
+                rc, out = sh("./check %s --tier quick" % c, cwd=ROOT, env=env)
                 kinds = sorted(set(re.findall(r"VIOLATION property=\S+ replay=\S+ kind=(\S+)", out)))
-                row[c] = {"exit": rc, "verdict": "VIOLATION" if rc == 1 else "held" if rc == 0 else "inconclusive", "kinds": kinds[:6], "repo_head": head}
+                row[c] = {"exit": rc, "verdict": "VIOLATION" if rc == 1 else "held" if rc == 0 else "inconclusive", "kinds": kinds[:6], "repo_head": head, "verif": verif_commit}
             caught = [c for c in row if row[c]["verdict"] == "VIOLATION"]
             print(name, "caught by", caught, flush=True)
             json.dump(matrix, open(matrix_path, "w"), indent=1, sort_keys=True)
